@@ -402,6 +402,22 @@ impl<'a> Tr<'a> {
                 }
             }
         }
+        // builtin: `w.next()` on a `slice.windows(3)` place: the first three elements, the iterator moves on by one
+        if let Expr::MethodCall(m) = e {
+            if m.method == "next" && m.args.is_empty() {
+                if let Ok(recv) = self.pure(&m.receiver, env, None) {
+                    if let Ty::Windows(t) = &recv.ty {
+                        let (root, path) = self.target_of(&m.receiver)?;
+                        let r = self.fresh("win");
+                        let x = self.fresh("nx");
+                        let item = Ty::Tuple(vec![(**t).clone(); 3]);
+                        let rest = k(self, Val { s: x.clone(), ty: Ty::Option(Box::new(item)) })?;
+                        let rest = self.write_place(&root, &path, env, &r, &rest, e)?;
+                        return Ok(Some(let_pat(&[r, x], &format!("(Casts.windows3_next {})", recv.s), &rest)));
+                    }
+                }
+            }
+        }
         // builtin: `it.last()` on a value whose type has a configured `Iterator::next`: a driver over fuel
         if let Expr::MethodCall(m) = e {
             if m.method == "last" && m.args.is_empty() {
